@@ -25,7 +25,7 @@ theorem ConnsPart.clear {H fn fe fc acell cobs w hmap conns armed} {roots : List
     (h : ConnsPart H fn fe fc acell cobs w hmap conns armed) (g : Glob roots cobs w) (i : Nat)
     (hi : i < conns.length) :
     ConnsPart H fn fe fc acell cobs (w.setObs (rootAt cobs i) Obs.cleared) hmap (conns.set i false) armed :=
-  { ne := h.ne, cellO := h.cellO
+  { ne := h.ne, cellO := h.cellO, obsv := h.obsv
     cellS := by rw [List.length_set]; exact h.cellS
     lenC := by rw [List.length_set]; exact h.lenC
     lenA := by rw [List.length_set]; exact h.lenA
@@ -54,7 +54,7 @@ theorem ConnsPart.clear {H fn fe fc acell cobs w hmap conns armed} {roots : List
 theorem Touch.setObs (w : World) (j : Nat) (f : Obs → Obs) {J K : Nat → Prop} (hj : J j) :
     Touch J K w (w.setObs j f) :=
   ⟨rfl, rfl, rfl, rfl, rfl, by simp [World.setObs], fun i hi => getElem?_setObs_other _ (fun e => hi (e ▸ hj)),
-   rfl, fun _ _ => rfl⟩
+   rfl, fun _ _ => rfl, rfl⟩
 
 /-- what holds between two callbacks of a hot source's broadcast (`hmap` = content of H's map cell) -/
 structure HotInv (UR : World → SubjM.State → Prop) (H : Subj) (fn : Data → Prog) (fe : Nat → Prog) (fc : Prog)
